@@ -136,21 +136,35 @@ fn range_step_backwards(
     (0..count).map(move |n| (start - n * step) as usize)
 }
 
+/// Converts a slice bound into an `i64`.  Integers beyond that range select
+/// the same elements as the closest `i64` so they are clamped.
+fn slice_bound(value: Value) -> Result<i64, Error> {
+    match value.0 {
+        ValueRepr::U64(_) | ValueRepr::U128(_) | ValueRepr::I128(_) => {
+            match i128::try_from(value) {
+                Ok(val) => Ok(val.clamp(i64::MIN as i128, i64::MAX as i128) as i64),
+                Err(_) => Ok(i64::MAX),
+            }
+        }
+        _ => i64::try_from(value),
+    }
+}
+
 pub fn slice(value: Value, start: Value, stop: Value, step: Value) -> Result<Value, Error> {
     let start = if start.is_none() {
         None
     } else {
-        Some(ok!(start.try_into()))
+        Some(ok!(slice_bound(start)))
     };
     let stop = if stop.is_none() {
         None
     } else {
-        Some(ok!(i64::try_from(stop)))
+        Some(ok!(slice_bound(stop)))
     };
     let step = if step.is_none() {
         1i64
     } else {
-        ok!(i64::try_from(step))
+        ok!(slice_bound(step))
     };
     if step == 0 {
         return Err(Error::new(
